@@ -21,7 +21,7 @@ func init() { core.Register(check{}) }
 func (check) ID() string    { return "C07" }
 func (check) Level() string { return "exploration" }
 func (check) Rule() string {
-	return "bounded-exhaustive enumeration, simplest first: programs = generated proto3 files (all 15 scalar kinds + enum as singular fields in two field-number layouts incl. 2-byte tags; repeated field of every kind (packed / string / bytes / message); map<K,V> for every integer/string key kind x 11 value kinds; nested/recursive messages with containers of messages, containers inside sub-messages, empty messages, a nested declaration; field numbers up to 262144 quick / 2^29-1 thorough) x messages (every boundary value of every kind as a single field, all pairs of fields, windows of 4, all fields; containers of size 0..3; hand-built nested trees of depth <=4) x every path to every present node + absent-last (unset field, index=len, len+1, missing key) + absent-inner, in number- and name-addressed form x operation families {GetByPath(+WithAddress), Field/FieldByName/Index/GetByStr/GetByInt from every parent, GetMany over every subset of <=2 children (+1 absent) in both orders, Children and PathNode.Load lazy and recursive, Interface under 2^2 option sets, typed casts}. One case = (program, message, operation family); counter `reads` = individual library calls judged. A case is non-trivial if it is distinct by (program, message, family) and judged at least one read. Round 9: path lookups and direct-child operations also on the message with its top-level fields in descending wire order. Round 10: a chain of 1100 nested messages through Load / Children."
+	return "bounded-exhaustive enumeration, simplest first: programs = generated proto3 files (all 15 scalar kinds + enum as singular fields in two field-number layouts incl. 2-byte tags; repeated field of every kind (packed / string / bytes / message); map<K,V> for every integer/string key kind x 11 value kinds; nested/recursive messages with containers of messages, containers inside sub-messages, empty messages, a nested declaration; field numbers up to 262144 quick / 2^29-1 thorough) x messages (every boundary value of every kind as a single field, all pairs of fields, windows of 4, all fields; containers of size 0..3; hand-built nested trees of depth <=4) x every path to every present node + absent-last (unset field, index=len, len+1, missing key) + absent-inner, in number- and name-addressed form x operation families {GetByPath(+WithAddress), Field/FieldByName/Index/GetByStr/GetByInt from every parent, GetMany over every subset of <=2 children (+1 absent) in both orders, Children and PathNode.Load lazy and recursive, Interface under 2^2 option sets, typed casts}. One case = (program, message, operation family); counter `reads` = individual library calls judged. A case is non-trivial if it is distinct by (program, message, family) and judged at least one read. Round 9: path lookups and direct-child operations also on the message with its top-level fields in descending wire order. Round 10: a chain of 1100 nested messages through Load / Children. Round 11: GetMany with path nodes reused from an earlier lookup."
 }
 
 func (check) Assumptions() []string {
